@@ -74,6 +74,7 @@ def run(tier):
         table, behs = syntax.generate(check, family, num=n, seed=core.seed(), depth=3)
         vers = progs.VERS[family][:2] if tier == "quick" else progs.VERS[family]
         res = progs.run_programs(check, wp, family, behs, table, core.seed(), ["none", "random"], vers)
+        res += progs.halt_programs(check, wp, family, core.seed(), ["none", "lf", "crlf", "blank"], vers, num=40 if tier == "quick" else 300)
         classify(check, res, table)
         total, miss = progs.coverage(table, family, res)
         uncovered[family] = miss
